@@ -509,3 +509,66 @@ package mail
 //@   loop 3 invariant[C11:errinv] errinv(mw)
 //@   loop 4 invariant[C11:errinv] errinv(mw)
 //@   ensures[C11:boundary-once] (mw.err == nil && msg.boundary == "") ==> ((mw.usedMixed != "" && old(("mixed" in msg.multiPartBoundary) && msg.multiPartBoundary["mixed"] != "") ==> mw.usedMixed == old(msg.multiPartBoundary["mixed"])) && (mw.usedRelated != "" && old(("related" in msg.multiPartBoundary) && msg.multiPartBoundary["related"] != "") ==> mw.usedRelated == old(msg.multiPartBoundary["related"])) && (mw.usedAlt != "" && old(("alternative" in msg.multiPartBoundary) && msg.multiPartBoundary["alternative"] != "") ==> mw.usedAlt == old(msg.multiPartBoundary["alternative"])))
+// (5) headers generated on first use are generated once: a render finds Date and Message-ID and leaves them alone
+//@ pred ghkept(m *mail.Msg, k string) = (k in m.genHeader) == old(k in m.genHeader) && ((k in m.genHeader) ==> m.genHeader[k] == old(m.genHeader[k]))
+//@ func mail.Msg.SetGenHeader (header, values)
+//@   requires[C11:wf] m != nil
+//@   ensures[C11:only-that-key] forall k string :: k != header ==> ghkept(m, k)
+//@ func mail.Msg.SetDateWithValue (timeVal)
+//@   requires[C11:wf] m != nil
+//@   ensures[C11:only-that-key] forall k string :: k != "Date" ==> ghkept(m, k)
+//@ func mail.Msg.SetDate
+//@   requires[C11:wf] m != nil
+//@   ensures[C11:only-that-key] forall k string :: k != "Date" ==> ghkept(m, k)
+//@ func mail.Msg.SetMessageIDWithValue (messageID)
+//@   requires[C11:wf] m != nil
+//@   ensures[C11:only-that-key] forall k string :: k != "Message-ID" ==> ghkept(m, k)
+//@ func mail.Msg.SetMessageID
+//@   requires[C11:wf] m != nil
+//@   ensures[C11:only-that-key] forall k string :: k != "Message-ID" ==> ghkept(m, k)
+//@ func mail.Msg.addDefaultHeader
+//@   requires[C11:wf] m != nil
+//@   ensures[C11:date-once] old("Date" in m.genHeader) ==> ghkept(m, "Date")
+//@   ensures[C11:message-id-once] old("Message-ID" in m.genHeader) ==> ghkept(m, "Message-ID")
+//@   ensures[C11:only-defaults] forall k string :: (k != "Date" && k != "Message-ID" && k != "MIME-Version") ==> ghkept(m, k)
+//@ func mail.Msg.SetUserAgent (userAgent)
+//@   requires[C11:wf] m != nil
+//@   ensures[C11:only-that-key] forall k string :: (k != "User-Agent" && k != "X-Mailer") ==> ghkept(m, k)
+//@ func mail.Msg.checkUserAgent
+//@   requires[C11:wf] m != nil
+//@   ensures[C11:only-that-key] forall k string :: (k != "User-Agent" && k != "X-Mailer") ==> ghkept(m, k)
+//@   ensures[C11:user-agent-once] old(("User-Agent" in m.genHeader) || ("X-Mailer" in m.genHeader)) ==> (ghkept(m, "User-Agent") && ghkept(m, "X-Mailer"))
+//@ func mail.msgWriter.writeMsg (msg)
+//@   ensures[C11:generated-once] (old("Date" in msg.genHeader) ==> ghkept(msg, "Date")) && (old("Message-ID" in msg.genHeader) ==> ghkept(msg, "Message-ID")) && (old(("User-Agent" in msg.genHeader) || ("X-Mailer" in msg.genHeader)) ==> (ghkept(msg, "User-Agent") && ghkept(msg, "X-Mailer")))
+//@   ensures[C11:only-defaults] forall k string :: (k != "Date" && k != "Message-ID" && k != "MIME-Version" && k != "User-Agent" && k != "X-Mailer") ==> ghkept(msg, k)
+// (6) a buffer-backed producer does not drain its buffer
+//@ func mail.writeFuncFromBuffer$1 (w) (n, err)
+//@   ensures[C11:not-consumed] buffer.rpos == old(buffer.rpos)
+// (7) the Reader hands out exactly the rendered bytes, in order
+//@ func mail.Reader.Read (payload) (n, err)
+//@   requires[C11:wf] r != nil && 0 <= r.offset
+//@   ensures[C11:delivers-in-order] (old(r.err) == nil && old(r.offset) < old(len(r.buffer))) ==> (err == nil && n == ((len(payload) < old(len(r.buffer)) - old(r.offset)) ? len(payload) : old(len(r.buffer)) - old(r.offset)) && r.offset == old(r.offset) + n && r.buffer == old(r.buffer) && (forall i :: 0 <= i && i < n ==> payload[i] == old(r.buffer[r.offset + i])))
+//@   ensures[C11:error-first] old(r.err) != nil ==> (n == 0 && err == old(r.err))
+//@ func mail.Reader.empty
+//@   requires[C11:wf] r != nil
+//@   ensures[C11:def] result == (len(r.buffer) <= r.offset)
+// (8) every alternative output path renders exactly once and starts the Reader at the beginning
+//     (world.writetos: ghost count of Msg.WriteTo calls)
+//@ ghost field writetos int
+//@ at mail.Msg.WriteTo entry ghost[C11:g] world.writetos = world.writetos + 1
+//@ func mail.Msg.WriteTo (writer) (n, err)
+//@   ensures[C11:counted] world.writetos == old(world.writetos) + 1
+//@ func mail.Msg.Write (writer) (n, err)
+//@   ensures[C11:one-render] world.writetos == old(world.writetos) + 1
+//@ func mail.Msg.WriteToFile (name) (err)
+//@   ensures[C11:one-render] world.writetos <= old(world.writetos) + 1 && (err == nil ==> world.writetos == old(world.writetos) + 1)
+//@ func mail.Msg.NewReader () (r)
+//@   ensures[C11:one-render] world.writetos == old(world.writetos) + 1
+//@   ensures[C11:from-start] r != nil && r.offset == 0
+//@ func mail.Msg.UpdateReader (reader)
+//@   requires[C11:wf] reader != nil
+//@   ensures[C11:one-render] world.writetos == old(world.writetos) + 1
+//@   ensures[C11:from-start] reader.offset == 0
+//@ func mail.Reader.Reset
+//@   requires[C11:wf] r != nil
+//@   ensures[C11:def] r.offset == 0 && len(r.buffer) == 0
